@@ -66,13 +66,15 @@ struct CountMeta {
   int released;
   int serial;
   const CountMeta *clone_of;
+  int refs;        // handles on the value: 1 for the creator, +1 per successful addref, -1 per unref
+  bool shareable;  // addref hands out further handles (else 0 = "not shareable", every handle is a clone)
 };
 struct World;
 static World *g_world = 0;
 
 static int cm_convert(convertable *, type_t type, void *) { return type ? MPT_ERROR(BadType) : (int)TypeMetaPtr; }
-static void cm_unref(metatype *m) { ((CountMeta *)m)->released++; }
-static uintptr_t cm_addref(metatype *) { return 0; }  // not shareable: every handle is a clone
+static void cm_unref(metatype *m) { CountMeta *cm = (CountMeta *)m; if (--cm->refs <= 0) cm->released++; }  // released when the last handle goes; every further unref counts again
+static uintptr_t cm_addref(metatype *m) { CountMeta *cm = (CountMeta *)m; if (!cm->shareable || cm->refs <= 0) return 0; return (uintptr_t)++cm->refs; }
 static metatype *cm_clone(const metatype *m);
 static const CMetaVptr kCountVptr = {cm_convert, cm_unref, cm_addref, cm_clone};
 
@@ -151,7 +153,7 @@ struct World {
   World() { g_world = this; }
   ~World() { g_world = 0; }
   CountMeta *newMeta(int payload, bool clonable, const CountMeta *from) {
-    metas.push_back(CountMeta{&kCountVptr, payload, clonable, 0, (int)metas.size(), from});
+    metas.push_back(CountMeta{&kCountVptr, payload, clonable, 0, (int)metas.size(), from, 1, from ? from->shareable : false});
     return &metas.back();
   }
   CountMeta *asCount(const void *p) { for (auto &x : metas) if (&x == p) return &x; return 0; }
@@ -268,6 +270,7 @@ static void compare(Ctx &c, const Model &E, const Forest &A, const std::set<int>
   }
 }
 
+static int holders(const Model &m, const CountMeta *cm) { int n = 0; for (int s : m.liveSlots()) if (m.n[s].vkind == 1 && m.n[s].cm == cm) ++n; return n; }
 // names and values of all live nodes are what the model says
 static void check_payload(Ctx &c, World &w, const char *op) {
   for (int s : w.m.liveSlots()) {
@@ -278,6 +281,7 @@ static void check_payload(Ctx &c, World &w, const char *op) {
     else if (!mn.named) VP_CHECK(c, id == 0 && mn.p->ident._len == 0, tagAt("name", op).c_str(), "after %s: unnamed node %d has a name of length %u", op, s, (unsigned)mn.p->ident._len);
     else VP_CHECK(c, id && mn.name == id && mn.p->ident._len == mn.name.size() + 1, tagAt("name", op).c_str(), "after %s: node %d is named '%.40s' (len %u), expected '%.40s'", op, s, id ? id : "(null)", (unsigned)mn.p->ident._len, mn.name.c_str());
     VP_CHECK(c, (metatype *)mn.p->_meta == mn.mt, tagAt("value", op).c_str(), "after %s: node %d holds another value object than the one it was given", op, s);
+    if (mn.vkind == 1) VP_CHECK(c, mn.cm->refs == holders(w.m, mn.cm), tagAt("value-released", op).c_str(), "after %s: value #%d of live node %d counts %d handles, %d nodes hold it", op, mn.cm->serial, s, mn.cm->refs, holders(w.m, mn.cm));
     if (mn.vkind == 1) VP_CHECK(c, mn.cm->released == 0, tagAt("value-released", op).c_str(), "after %s: value of live node %d was released %d time(s)", op, s, mn.cm->released);
     if (mn.vkind == 2) {
       size_t len = 0;
@@ -292,6 +296,7 @@ static void check_freed(Ctx &c, World &w, const std::vector<int> &gone, const ch
   for (int s : gone) {
     MNode &mn = w.m.n[s];
     VP_CHECK(c, __asan_address_is_poisoned((void *)mn.p), tagAt("not-freed", op).c_str(), "after %s: node %d should have been released but its memory is still allocated", op, s);
+    if (mn.vkind == 1 && holders(w.m, mn.cm) > 0) continue;  // other nodes still hold the (shared) value: checked with them
     if (mn.vkind == 1) VP_CHECK(c, mn.cm->released == 1, tagAt("value-released", op).c_str(), "after %s: value of released node %d was released %d time(s), expected once", op, s, mn.cm->released);
   }
 }
@@ -359,7 +364,7 @@ static int newNode(Ctx &c, World &w) {
   mn.p = p; mn.live = true; mn.named = named; mn.binary = binary; mn.name = name;
   switch (c.weighted({3, 8, 1, 4})) {
     case 0: break;
-    case 1: mn.vkind = 1; mn.cm = w.newMeta((int)c.range(0, 3), true, 0); break;
+    case 1: mn.vkind = 1; mn.cm = w.newMeta((int)c.range(0, 3), true, 0); mn.cm->shareable = mn.cm->payload & 1; break;  // odd payload: addref hands out handles
     case 2: mn.vkind = 1; mn.cm = w.newMeta((int)c.range(0, 3), false, 0); c.label("value:unclonable"); break;
     default: {
       size_t len = c.near({0, 1, 30, 200}, 200);  // >= 250 is refused by mpt_meta_new on this tree (C09), kept below
@@ -1081,8 +1086,30 @@ static void run(Ctx &c) {
     E = m;
     std::vector<int> owners2;
     for (int s : live) if (!m.n[s].kids.empty()) owners2.push_back(s);
-    // (appended weights: draws below 11 keep their meaning)
-    switch (c.weighted({3, 2, 3, 3, 4})) {
+    // (appended weights: draws below 15 keep their meaning)
+    switch (c.weighted({3, 2, 3, 3, 4, 3})) {
+      case 5: {  // C++ value assignment  node = reference<metatype>  (header only: node.h / core.h): the old value loses one handle,
+                 // the node takes a new handle on the assigned value if that is shareable (addref), else ends up without value
+        int A = pickOf(c, live);
+        size_t how = c.weighted({3, 1, 3});  // another node's reference, an empty reference, the node's own reference
+        int B = how == 0 ? pickOf(c, live) : how == 2 ? A : -1;
+        MNode &an = E.n[A];
+        CountMeta *oldcm = an.vkind == 1 ? an.cm : 0;
+        if (how == 1) { reference<metatype> none2; *m.n[A].p = none2; }
+        else *m.n[A].p = m.n[B].p->meta();
+        // model
+        const MNode bn = B >= 0 ? m.n[B] : MNode();
+        bool takes = B >= 0 && bn.vkind == 1 && bn.cm->shareable;
+        c.logf("  node %d = %s  (%s)", A, how == 0 ? fmtstr("value reference of node %d", B).c_str() : how == 1 ? "empty reference" : "its own value reference",
+               takes ? "shareable: another handle" : "nothing to share: no value afterwards");
+        if (takes) { an.vkind = 1; an.cm = bn.cm; an.mt = (metatype *)bn.cm; an.text.clear(); }
+        else { an.vkind = 0; an.cm = 0; an.mt = 0; an.text.clear(); }
+        settle(c, w, E, none, nobody, "node=reference");
+        if (oldcm && holders(w.m, oldcm) == 0) VP_CHECK(c, oldcm->released == 1, "value-released@node=reference", "the value node %d held before the assignment was released %d times, expected once", A, oldcm->released);
+        c.label(how == 0 ? "op:assign-other" : how == 1 ? "op:assign-empty" : "op:assign-own");
+        if (takes) c.label("assign:shared");
+        break;
+      }
       case 4: {  // allocation-failure injection: the k-th allocation the library makes during the call returns NULL
         size_t sub = c.weighted({1, 2, 3, 4, 3, 2, 3});  // node_new, node/list/tree clone, parse_node, node_parse, node_append
         if (sub == 0) {
